@@ -1240,7 +1240,7 @@ type node struct {
 	rootIdx int
 }
 
-func (n *node) history() []op {
+func (s *search) history(n *node) []op {
 	var h []op
 	for x := n; x != nil && x.parent != nil; x = x.parent {
 		h = append(h, x.op)
@@ -1248,10 +1248,8 @@ func (n *node) history() []op {
 	for i, j := 0, len(h)-1; i < j; i, j = i+1, j-1 {
 		h[i], h[j] = h[j], h[i]
 	}
-	return append(append([]op{}, rootSetup[n.rootIdx]...), h...)
+	return append(append([]op{}, s.roots[n.rootIdx]...), h...)
 }
-
-var rootSetup [][]op
 
 type hkey [16]byte
 
@@ -1282,6 +1280,16 @@ type search struct {
 	trans   int64
 	pruned  int64
 	resyncs int64
+
+	roots           [][]op
+	maxDepth        int
+	levels          []levelInfo
+	depthReached    int
+	frontierLeft    int
+	unexpanded      int
+	frontierEmpty   bool
+	stoppedByBudget bool
+	wall            float64
 }
 
 func newSearch(cfg config) *search {
@@ -1334,7 +1342,7 @@ func (s *search) record(fs []finding, hist []op, n *node) {
 // expand executes every enabled command from node n.
 func (s *search) expand(n *node, idx int, maxDepth int, ss *stepStats) {
 	ops := enabled(n.st, s.cfg)
-	hist := n.history()
+	hist := s.history(n)
 	for j, o := range ops {
 		h := append(append([]op{}, hist...), o)
 		st2, per := execute(s.cfg, h, n.st, len(h)-1, nil, ss)
@@ -1427,13 +1435,13 @@ func roots(cfg config) [][]op {
 }
 
 func main() {
-	budget := flag.Int("budget", 0, "override the wall-clock budget (seconds) after which no further level is started")
+	budget := flag.Int("budget", 0, "override the wall-clock budget (seconds) after which no further state is expanded")
 	depthFlag := flag.Int("depth", 0, "override the depth bound")
 	sessFlag := flag.Int("sessions", 0, "override the number of sessions")
 	prof := flag.String("cpuprofile", "", "write a CPU profile")
 	workersFlag := flag.Int("workers", 2*runtime.GOMAXPROCS(0), "worker goroutines (each with its own server per transition)")
 	ballastFlag := flag.Int("ballast", 64, "MiB of ballast")
-	gcFlag := flag.Int("gcpercent", 400, "GC percent (every transition builds a server: allocation heavy, tiny live heap)")
+	gcFlag := flag.Int("gcpercent", 100, "GC percent (every transition builds a server: allocation heavy, tiny live heap)")
 	run = vk.Start("C08", "model_checking")
 	debug.SetGCPercent(*gcFlag)
 	ballast := make([]byte, *ballastFlag<<20) // never touched: only makes GC cycles rarer while the live heap is small
@@ -1447,84 +1455,68 @@ func main() {
 		replay()
 		return
 	}
-	cfg := config{K: 2, Cap: 3}
-	maxDepth := 5
-	wallBudget := 100 * time.Second
+	type plan struct {
+		cfg      config
+		maxDepth int
+	}
+	plans := []plan{{config{K: 2, Cap: 3}, 5}}
+	wallBudget := 110 * time.Second
 	if run.Thorough() {
-		cfg = config{K: 3, Cap: 4}
-		maxDepth = 6
-		wallBudget = 15 * time.Minute
+		// the 4-session search first (small), then the large 3-session one
+		plans = []plan{{config{K: 4, Cap: 3}, 4}, {config{K: 3, Cap: 4}, 5}}
+		wallBudget = 18 * time.Minute
 	}
-	if *depthFlag > 0 {
-		maxDepth = *depthFlag
-	}
-	if *sessFlag > 0 {
-		cfg.K = *sessFlag
+	if *depthFlag > 0 || *sessFlag > 0 {
+		pl := plans[len(plans)-1]
+		if *depthFlag > 0 {
+			pl.maxDepth = *depthFlag
+		}
+		if *sessFlag > 0 {
+			pl.cfg.K = *sessFlag
+		}
+		plans = []plan{pl}
 	}
 	if *budget > 0 {
 		wallBudget = time.Duration(*budget) * time.Second
 	}
 	start := time.Now()
+	deadline := start.Add(wallBudget)
 
-	s := newSearch(cfg)
-	rootSetup = roots(cfg)
 	var total stepStats
-	// roots: the set-up commands are real commands, judged like any other
-	for i, h := range rootSetup {
-		st, per := execute(cfg, h, nil, 0, nil, &total)
-		for j, fs := range per {
-			if len(fs) > 0 {
-				s.record(fs, h[:j+1], &node{rootIdx: i})
+	var searches []*search
+	var coverage []map[string]interface{}
+	allEmpty := true
+	for _, pl := range plans {
+		s := newSearch(pl.cfg)
+		s.run(pl.maxDepth, *workersFlag, deadline, start)
+		total.add(&s.stats)
+		searches = append(searches, s)
+		coverage = append(coverage, s.coverage())
+		allEmpty = allEmpty && s.frontierEmpty
+		fmt.Printf("C08 sessions=%d mailbox_cap=%d depth=%d/%d states=%d transitions=%d frontier_left=%d frontier_emptied=%v pruned_after_violation=%d stopped_by_budget=%v wall=%.1fs\n",
+			s.cfg.K, s.cfg.Cap, s.depthReached, s.maxDepth, s.states(), s.trans, s.frontierLeft, s.frontierEmpty, s.pruned, s.stoppedByBudget, s.wall)
+	}
+
+	// ---- the shortest counterexample per key, re-executed 5 times from scratch, every step judged ----
+	type found struct {
+		c   *cex
+		cfg config
+	}
+	best := map[string]found{}
+	for _, s := range searches {
+		for k, c := range s.cex {
+			if old, ok := best[k]; !ok || c.total < old.c.total {
+				best[k] = found{c, s.cfg}
 			}
 		}
-		n := &node{st: st, rootIdx: i, order: uint64(i), total: len(h)}
-		s.offer(canon(st), n)
 	}
-
-	var levels []levelInfo
-	depthReached := 0
-	frontierLeft := 0
-	stoppedByBudget := false
-	for d := 0; d < maxDepth; d++ {
-		fr := s.collectLevel(d)
-		if len(fr) == 0 {
-			break
-		}
-		if time.Since(start) > wallBudget {
-			stoppedByBudget = true
-			frontierLeft = len(fr)
-			break
-		}
-		for i, n := range fr {
-			n.order = uint64(i) // dense, deterministic
-		}
-		vk.ParallelW(*workersFlag, len(fr), func(i int) {
-			var ss stepStats
-			s.expand(fr[i], i, maxDepth, &ss)
-			s.statsMu.Lock()
-			s.stats.add(&ss)
-			s.statsMu.Unlock()
-		})
-		depthReached = d + 1
-		nl := len(s.collectLevel(d + 1))
-		levels = append(levels, levelInfo{Depth: d + 1, NewStates: nl, Transitions: atomic.LoadInt64(&s.trans), WallS: time.Since(start).Seconds()})
-		fmt.Fprintf(os.Stderr, "C08 depth %d: %d new states, %d transitions so far, %.1fs\n", d+1, nl, s.trans, time.Since(start).Seconds())
-		if nl == 0 {
-			break
-		}
-		frontierLeft = nl
-	}
-	total.add(&s.stats)
-	frontierEmpty := frontierLeft == 0 && !stoppedByBudget
-
-	// ---- every counterexample is re-executed 5 times from scratch, every step judged ----
-	keys := make([]string, 0, len(s.cex))
-	for k := range s.cex {
+	keys := make([]string, 0, len(best))
+	for k := range best {
 		keys = append(keys, k)
 	}
 	sort.Strings(keys)
 	for _, k := range keys {
-		c := s.cex[k]
+		c, cfg := best[k].c, best[k].cfg
 		same := 0
 		var transcript string
 		for i := 0; i < 5; i++ {
@@ -1543,50 +1535,38 @@ func main() {
 			run.EngineError("violation %s reproduced only %d/5 times on %s", k, same, histString(c.hist))
 		}
 		run.Violation(k, map[string]interface{}{
-			"config":     cfg,
-			"history":    c.hist,
-			"readable":   histString(c.hist),
-			"what":       c.msg,
-			"transcript": strings.Split(strings.TrimRight(transcript, "\n"), "\n"),
+			"config":            cfg,
+			"history":           c.hist,
+			"readable":          histString(c.hist),
+			"what":              c.msg,
+			"transcript":        strings.Split(strings.TrimRight(transcript, "\n"), "\n"),
 			"note_after_resync": c.resync,
 		})
 	}
 
 	// ---- evidence ----
-	if total.noExpWithPendingX == 0 || total.staleCmd == 0 || total.expunge == 0 || total.noopAfterUpdates == 0 || total.idleLines == 0 {
+	if total.noExpWithPendingX == 0 || total.heldBack == 0 || total.staleCmd == 0 || total.expunge == 0 || total.noopAfterUpdates == 0 || total.idleLines == 0 {
 		run.EngineError("vacuous run: %+v", total)
 	}
-	run.States = s.states()
-	run.Trans = s.trans
-	run.Traces = s.trans
-	run.AddEvals(s.trans)
 	var nt int64
-	for i := range s.shards {
-		for _, n := range s.shards[i].m {
-			for _, se := range n.st.S {
-				if len(se.Pend) > 0 {
-					nt++
-					break
+	for _, s := range searches {
+		run.States += s.states()
+		run.Trans += s.trans
+		for i := range s.shards {
+			for _, n := range s.shards[i].m {
+				for _, se := range n.st.S {
+					if len(se.Pend) > 0 {
+						nt++
+						break
+					}
 				}
 			}
 		}
 	}
+	run.Traces = run.Trans
+	run.AddEvals(run.Trans)
 	run.NontrivialN(nt)
-	run.Set("bounds", map[string]interface{}{"sessions": cfg.K, "mailboxes": 2, "mailbox_size_cap": cfg.Cap, "depth_bound": maxDepth,
-		"roots": len(rootSetup), "root_setups": func() []string {
-			var l []string
-			for _, h := range rootSetup {
-				l = append(l, histString(h))
-			}
-			return l
-		}()})
-	run.Set("levels", levels)
-	run.Set("depth_reached", int64(depthReached))
-	run.Set("frontier_emptied", frontierEmpty)
-	run.Set("frontier_left_unexpanded", int64(frontierLeft))
-	run.Set("stopped_by_wall_budget", stoppedByBudget)
-	run.Set("transitions_pruned_after_violation", s.pruned)
-	run.Set("transitions_continued_after_resync", s.resyncs)
+	run.Set("searches", coverage)
 	run.Set("response_lines_judged", total.lines)
 	run.Set("exists_lines", total.exists)
 	run.Set("expunge_lines", total.expunge)
@@ -1602,30 +1582,99 @@ func main() {
 	run.Set("probe_connections", total.probes)
 	run.Set("commands_not_completed_ok", total.nonOK)
 	obs := map[string]interface{}{}
-	for k, n := range obsN {
-		obs[k] = map[string]interface{}{"count": n, "shortest_sample": obsOne[k]}
-		fmt.Printf("C08 observation (outside the property, not a verdict): %s x%d e.g. %s\n", k, n, obsOne[k])
+	var obsKeys []string
+	for k := range obsN {
+		obsKeys = append(obsKeys, k)
+	}
+	sort.Strings(obsKeys)
+	for _, k := range obsKeys {
+		obs[k] = map[string]interface{}{"count": obsN[k], "shortest_sample": obsOne[k]}
+		fmt.Printf("C08 observation (outside the property, not a verdict): %s x%d e.g. %s\n", k, obsN[k], obsOne[k])
 	}
 	run.Set("observations_outside_the_property", obs)
 	run.Sample("history", "s0:[setup] APPEND A ; s0:[setup] APPEND A ; s0:[setup] SELECT A ; s1:[setup] SELECT A ; s1: STORE 1 +FLAGS (\\Deleted) ; s1: EXPUNGE ; s0: FETCH 2 FLAGS ; s0: NOOP")
-	run.Rule = "breadth-first search over histories of {APPEND m, SELECT m, CLOSE, STORE i|* +FLAGS (\\Deleted), STORE 1:* -FLAGS (\\Deleted), UID STORE u, EXPUNGE, UID EXPUNGE u, COPY i m', MOVE i m', MOVE 1:2 m', UID MOVE u m', FETCH i|1:* FLAGS, UID FETCH 1:* FLAGS, SEARCH ALL|DELETED, UID SEARCH ALL, NOOP, IDLE..DONE}, i in {1,last,last+1}, u in {first/last UID of the session's view, newest UID of the mailbox}, issued one at a time by the sessions on a real imapserver+imapmemserver; every transition = fresh server, fresh connections, replay, one more command, fresh probe connection; merged on the canonical reference-model state (mailboxes as (uid rank, \\Deleted) lists; per session: selected mailbox, idling, the messages its announced view denotes, the notifications owed to it in order; sessions sorted, mailbox names up to swap). non-trivial = distinct states in which some session is owed notifications"
-	run.Exhaustive = frontierEmpty
+	run.Rule = "breadth-first search over histories of {APPEND m, SELECT m, CLOSE, STORE i|* +FLAGS (\\Deleted), STORE 1:* -FLAGS (\\Deleted), UID STORE u, EXPUNGE, UID EXPUNGE u, COPY i m', MOVE i m', MOVE 1:2 m', UID MOVE u m', FETCH i|1:* FLAGS, UID FETCH 1:* FLAGS, SEARCH ALL|DELETED, UID SEARCH ALL, NOOP, IDLE..DONE}, i in {1,last,last+1}, u in {first/last UID of the session's view, newest UID of the mailbox}, issued one at a time by the sessions on a real imapserver+imapmemserver, from several roots (empty mailboxes / 2, 3 (4) messages with every session selected); every transition = fresh server, fresh connections, replay, one more command, fresh probe connection; merged on the canonical reference-model state (mailboxes as (uid rank, \\Deleted) lists; per session: selected mailbox, idling, the messages its announced view denotes, the notifications owed to it in order; sessions sorted, mailbox names up to swap). non-trivial = distinct states in which some session is owed notifications"
+	run.Exhaustive = allEmpty
 	run.Assume("commands are issued one at a time (the property is about histories, not overlap); IDLE is the only command during which other sessions act, and the idling session's output is read when it sends DONE")
 	run.Assume("EXISTS n announces the oldest not-yet-announced messages of the mailbox in arrival order, including messages removed before they were announced (their EXPUNGE must then follow)")
 	run.Assume("which messages a sequence set with '*' denotes on a stale view is not constrained by the property (DESIGN §5 #15): both readings (largest number announced to the session / server-side count) are accepted, the probe decides which one the reference model follows")
 	run.Assume("FETCH and SEARCH results are judged only for the numbers they contain (range, pairing of number and UID against the announced view), not for completeness or flag values")
+	run.Assume("a command that is not completed OK is not a violation (the property does not promise success): the model assumes it had no effect, the probe verifies that, its response lines are judged, and it is listed under observations_outside_the_property")
 	run.Assume("after a violation the history is not extended, except: a FETCH line with sequence number 0 is ignored, and after MOVE's duplicated EXPUNGE responses the session's view is restarted from the mailbox (MOVE's final poll has flushed everything the server owed); counterexamples found after such a restart say so")
 	run.Assume("visited states are remembered by the first 128 bits of the SHA-256 of the canonical key; the client's learnt UID list is not part of the key because every pairing is checked against the view when it is received")
-	run.Assume(fmt.Sprintf("depth-bounded: the state space is infinite (flag updates owed to a session accumulate); histories of up to %d commands after each root's set-up are covered modulo merging; frontier emptied: %v", depthReached, frontierEmpty))
-	fmt.Printf("C08 sessions=%d mailbox_cap=%d depth=%d/%d states=%d transitions=%d frontier_left=%d frontier_emptied=%v pruned=%d\n",
-		cfg.K, cfg.Cap, depthReached, maxDepth, s.states(), s.trans, frontierLeft, frontierEmpty, s.pruned)
+	run.Assume("depth-bounded: the state space is infinite (flag updates owed to a session accumulate), so the frontier cannot empty; all histories up to the reported depth after each root's set-up are covered modulo merging")
 	stopProfile()
-	if mp := os.Getenv("C08_MEMPROFILE"); mp != "" {
-		f, _ := os.Create(mp)
-		pprof.Lookup("allocs").WriteTo(f, 0)
-		f.Close()
-	}
 	run.Finish()
+}
+
+// run explores breadth-first up to maxDepth commands after every root.
+func (s *search) run(maxDepth, workers int, deadline, start time.Time) {
+	t0 := time.Now()
+	s.maxDepth = maxDepth
+	s.roots = roots(s.cfg)
+	// roots: the set-up commands are real commands, judged like any other
+	for i, h := range s.roots {
+		st, per := execute(s.cfg, h, nil, 0, nil, &s.stats)
+		for j, fs := range per {
+			if len(fs) > 0 {
+				s.record(fs, h[:j+1], &node{rootIdx: i})
+			}
+		}
+		s.offer(canon(st), &node{st: st, rootIdx: i, order: uint64(i), total: len(h)})
+	}
+	for d := 0; d < maxDepth; d++ {
+		fr := s.collectLevel(d)
+		if len(fr) == 0 {
+			break
+		}
+		for i, n := range fr {
+			n.order = uint64(i) // dense, deterministic
+		}
+		var expanded int64
+		vk.ParallelW(workers, len(fr), func(i int) {
+			if time.Now().After(deadline) {
+				return // engine budget, never a verdict: reported as stopped_by_wall_budget
+			}
+			var ss stepStats
+			s.expand(fr[i], i, maxDepth, &ss)
+			atomic.AddInt64(&expanded, 1)
+			s.statsMu.Lock()
+			s.stats.add(&ss)
+			s.statsMu.Unlock()
+		})
+		nl := len(s.collectLevel(d + 1))
+		s.levels = append(s.levels, levelInfo{Depth: d + 1, NewStates: nl, Transitions: atomic.LoadInt64(&s.trans), WallS: time.Since(start).Seconds()})
+		fmt.Fprintf(os.Stderr, "C08 [%d sessions] depth %d: %d new states, %d transitions so far, %.1fs\n", s.cfg.K, d+1, nl, s.trans, time.Since(start).Seconds())
+		if int(expanded) < len(fr) {
+			s.stoppedByBudget = true
+			s.unexpanded = len(fr) - int(expanded)
+			s.frontierLeft = nl + s.unexpanded
+			break
+		}
+		s.depthReached = d + 1
+		s.frontierLeft = nl
+		if nl == 0 {
+			break
+		}
+	}
+	s.frontierEmpty = s.frontierLeft == 0 && !s.stoppedByBudget
+	s.wall = time.Since(t0).Seconds()
+}
+
+func (s *search) coverage() map[string]interface{} {
+	var setups []string
+	for _, h := range s.roots {
+		setups = append(setups, histString(h))
+	}
+	return map[string]interface{}{
+		"sessions": s.cfg.K, "mailboxes": 2, "mailbox_size_cap": s.cfg.Cap, "depth_bound": s.maxDepth,
+		"root_setups": setups, "levels": s.levels, "depth_reached": s.depthReached,
+		"states": s.states(), "transitions": s.trans,
+		"frontier_emptied": s.frontierEmpty, "frontier_left_unexpanded": s.frontierLeft,
+		"stopped_by_wall_budget": s.stoppedByBudget, "nodes_of_last_level_not_expanded": s.unexpanded,
+		"transitions_pruned_after_violation": s.pruned, "transitions_continued_after_resync": s.resyncs,
+		"wall_s": s.wall,
+	}
 }
 
 // ---------------------------------------------------------------------------------------------
